@@ -332,7 +332,7 @@ func main() {
 	runner.Main(&runner.Harness{
 		ID:          "C18",
 		Level:       "model_checking",
-		Rule:        "for each exported wire-message type (OpenVPN header/plain/auth/crypt/crypt2/wrapped key, WireGuard initiation/transport, Winbox auth, RDP TPKT/X.224/token/negotiation request/correlation info): every length from 0 to size+3 (variable messages: min..min+40, thorough +300; Winbox up to 520) in three fill patterns, well-formed Winbox messages from an independent encoder for every user-name length 1..520 (plain and RoMON, both parities), every byte-slice literal of the module's tests with all prefixes, extensions and single-position substitutions, and the counter pattern at the size bounds with all single-position substitutions; oracle: accepted => ToBytes(FromBytes(b)) == b and FromBytes(ToBytes(m)) == m, the returned bytes are not disturbed by serialising another message afterwards, and messages from the independent Winbox encoder (user names of 3..200 bytes; public keys containing the delimiter value) are accepted; fixed-size messages reject every other length; no panic; states = distinct (type, input) pairs",
+		Rule:        "for each exported wire-message type (OpenVPN header/plain/auth/crypt/crypt2/wrapped key, WireGuard initiation/transport, Winbox auth, RDP TPKT/X.224/token/negotiation request/correlation info): every length from 0 to size+3 (variable messages: min..min+40, thorough +300; Winbox up to 520) in three fill patterns, well-formed Winbox messages from an independent encoder for every user-name length 1..520 (plain and RoMON, both parities), every byte-slice literal of the module's tests with all prefixes, extensions and single-position substitutions, and the counter pattern at the size bounds with all single-position substitutions; oracle: accepted => ToBytes(FromBytes(b)) == b and FromBytes(ToBytes(m)) == m, the returned bytes are not disturbed by serialising another message afterwards, and messages from the independent Winbox encoder (user names of 3..200 bytes; public keys containing the delimiter value) are accepted; fixed-size messages reject every other length; no panic; states = distinct (type, input) pairs; OpenVPN wrapped keys of every length min-1..max+1 alone and inside a tls-crypt-v2 reset (must-accept), tls-auth resets must have an HMAC of a known digest size",
 		Assumptions: []string{"equality of messages is structural (nil and empty slices equal)"},
 		Scenarios: func(tier string, yield func(any) bool) {
 			for _, c := range codecs {
